@@ -13,6 +13,8 @@ Mixes == { <<"fall", "fall", "fall">>, <<"fall", "term", "fall", "rej">>, <<"eat
            <<"wrapfall", "fall", "wrapfall", "fall">>, <<"wrapfall", "wrapfall", "fall">>,
            \* "subfall": a matched route whose handler is a real subroute that hands the connection back, then fall-through
            <<"subfall", "subfall", "fall", "subfall">>, <<"subfall", "term", "subfall">>,
+           \* "subterm": the same subroute instance hands the connection back, a later route of the outer list consumes it
+           <<"subterm", "subfall", "subfall", "subterm">>, <<"subfall", "subterm", "subfall">>,
            \* "thrfall": a matched route whose handler is the real throttle handler, then fall-through: the consumer reads through it
            <<"thrfall", "fall", "thrfall">> }
 Grid == [mix : Mixes, consumer : {"fast", "slow", "absent"}, procs : {1, 2, 16},
